@@ -52,12 +52,24 @@ type expect struct {
 	reqAud                  []string // audience named by the request (JWT access tokens); empty = the client
 	skew, idlt, atlt        time.Duration
 	alg, kid                string
+	altAlg, altKid          string // midrot: the second key that was current during the request; its header is as good as the first's
 	wantID                  tri
 	wantAT                  bool
 	idInATField             bool // token exchange returns the ID token in access_token
 	fragment                bool
 	nonceFilled             bool // Either-case: the request had no nonce and the storage's custom claim "nonce" shows up
 	filled                  []string
+}
+
+func (e *expect) headerOK(p *jwtParts) bool {
+	return (p.alg == e.alg && p.kid == e.kid) || (e.altAlg != "" && p.alg == e.altAlg && p.kid == e.altKid)
+}
+
+func (e *expect) altNote() string {
+	if e.altAlg == "" {
+		return ""
+	}
+	return fmt.Sprintf(" or, after the rotation, alg=%q kid=%q", e.altAlg, e.altKid)
 }
 
 // evilJSON: evilClaims as they look after a JSON round trip (what a decoded token payload holds).
@@ -354,7 +366,7 @@ func judge(d *driver, o *flowOut) engine.Result {
 		}
 	}
 	readers := ""
-	if vd == nil && at != "" {
+	if vd == nil && at != "" && !d.quiet {
 		vd, readers = probeReaders(d, o, at, stored)
 	}
 	uc := "-"
@@ -419,8 +431,8 @@ func checkIDToken(d *driver, o *flowOut, ks *jwks, idt, at string) (*verdict, bo
 	if !ok {
 		return &verdict{"id-malformed", "id_token is not a compact JWT: " + idt}, false
 	}
-	if p.alg != e.alg || p.kid != e.kid {
-		return &verdict{"id-header", fmt.Sprintf("ID token header alg=%q kid=%q, current signing key is alg=%q kid=%q", p.alg, p.kid, e.alg, e.kid)}, false
+	if !e.headerOK(p) {
+		return &verdict{"id-header", fmt.Sprintf("ID token header alg=%q kid=%q, current signing key is alg=%q kid=%q%s", p.alg, p.kid, e.alg, e.kid, e.altNote())}, false
 	}
 	private := privateSets[d.c.private]
 	e.nonceFilled = e.nonce == "" && isEvil(p.claims, private, "nonce")
@@ -464,13 +476,14 @@ func checkIDToken(d *driver, o *flowOut, ks *jwks, idt, at string) (*verdict, bo
 		return bad("id-exp", "exp %v, issued at %v with lifetime %v (skew %v)", claims.GetExpiration().UTC(), now.UTC(), e.idlt, e.skew)
 	}
 	if at != "" {
-		if want := refHalfHash(e.alg, at); claims.AccessTokenHash != want {
-			return bad("id-at-hash", "at_hash %q, left-half hash of the access token of the same response is %q", claims.AccessTokenHash, want)
+		// the hash belongs to the algorithm in the token's own header (= e.alg unless a second key was current too)
+		if want := refHalfHash(p.alg, at); claims.AccessTokenHash != want {
+			return bad("id-at-hash", "at_hash %q, left-half hash of the access token of the same response under the token's alg %s is %q", claims.AccessTokenHash, p.alg, want)
 		}
 	}
 	if e.code != "" && claims.CodeHash != "" {
-		if want := refHalfHash(e.alg, e.code); claims.CodeHash != want {
-			return bad("id-c-hash", "c_hash %q, left-half hash of the code is %q", claims.CodeHash, want)
+		if want := refHalfHash(p.alg, e.code); claims.CodeHash != want {
+			return bad("id-c-hash", "c_hash %q, left-half hash of the code under the token's alg %s is %q", claims.CodeHash, p.alg, want)
 		}
 	}
 	if cid, ok := p.claims["client_id"]; ok && cid != e.client {
@@ -520,8 +533,8 @@ func checkIDToken(d *driver, o *flowOut, ks *jwks, idt, at string) (*verdict, bo
 func checkJWTAccess(d *driver, o *flowOut, ks *jwks, at string, stored *refstore.Token) *verdict {
 	e := &o.exp
 	p, _ := splitJWT(at)
-	if p.alg != e.alg || p.kid != e.kid {
-		return &verdict{"at-header", fmt.Sprintf("access token header alg=%q kid=%q, current signing key is alg=%q kid=%q", p.alg, p.kid, e.alg, e.kid)}
+	if !e.headerOK(p) {
+		return &verdict{"at-header", fmt.Sprintf("access token header alg=%q kid=%q, current signing key is alg=%q kid=%q%s", p.alg, p.kid, e.alg, e.kid, e.altNote())}
 	}
 	v := op.NewAccessTokenVerifier(e.issuer, ks, op.WithSupportedAccessTokenSigningAlgorithms(ks.algs()...))
 	claims, err := op.VerifyAccessToken[*oidc.AccessTokenClaims](context.Background(), at, v)
